@@ -15,13 +15,14 @@ import KiraModel.Exec.SuiteStatic
 import KiraModel.Exec.SuiteMixer
 import KiraModel.Exec.SuiteFxA
 import KiraModel.Exec.SuiteFxB
+import KiraModel.Exec.SuiteFxRate
 import KiraModel.Exec.SuiteChan
 import KiraModel.Exec.SuiteStorage
 import KiraModel.Exec.SuiteLife
 import KiraModel.Exec.SuiteDeliver
 import KiraModel.Exec.SuiteStream
 
-open K.Exec K.Exec.Clock K.Exec.Wav K.Exec.FxA K.Exec.FxB K.Exec.Mix
+open K.Exec K.Exec.Clock K.Exec.Wav K.Exec.FxA K.Exec.FxB K.Exec.FxRate K.Exec.Mix
 
 /-- A suite: state, initial state, step on a tokenised op line. `none` = unparsable op. -/
 structure Suite where
@@ -52,6 +53,7 @@ def suiteOf (name : String) : Option Suite :=
   | "mixer" | "mixtrk" | "mixpart" => some { σ := MixState, init := {}, step := mixStep }
   | "fxa" => some { σ := FxAState, init := {}, step := fxaStep }
   | "fxb" => some { σ := FxbState, init := {}, step := fxbStep }
+  | "fxrate" => some { σ := FxRateState, init := {}, step := fxRateStep }
   | "chan" => some { σ := ChanState, init := {}, step := withSeq chanStep }
   | "storage" => some { σ := StoState, init := {}, step := withSeq storageStep }
   | "life" => some { σ := LifeState, init := {}, step := withSeq lifeStep }
